@@ -268,7 +268,7 @@ func c08Client(c *Ctx, r *Report, ci *clientInfo, control bool) map[string]bool 
 				continue
 			case strings.HasPrefix(cls, "ClientError"), cls == "ctx.Err", cls == "parseResponseFunc":
 				okc = true
-			case cls == "errors.New" && site.fr == ci.top:
+			case cls == "errors.New" && site.fr.within(ci.top) && !site.fr.within(ci.inner):
 				okc = true // immediate precondition errors (nil request, port not set)
 			case cls == "call:do" && site.name == "Do":
 				okc = true // forwarded from do, classified there
@@ -342,7 +342,7 @@ func c08Client(c *Ctx, r *Report, ci *clientInfo, control bool) map[string]bool 
 	// ---- R8.5 ----
 	tf := ci.top
 	for _, cr := range ci.an.calls {
-		if cr.frame != tf {
+		if !ci.inTop(cr) {
 			continue
 		}
 		if cr.method == "Bytes" || cr.method == "ExpectedResponseLength" {
